@@ -36,7 +36,10 @@ verus! {
 pub trait Bytes: Sized {
     spec fn bytes_view(&self) -> Seq<u8>;
     fn as_ref(&self) -> (r: &[u8])
-        ensures r@ == self.bytes_view();
+        ensures r@ == self.bytes_view(),
+            // a `&[u8]` never has more than isize::MAX elements (Rust reference, slice layout invariant); needed so that the sum
+            // of two serialisation lengths (signature.rs) provably does not overflow (C14)
+            r@.len() <= isize::MAX;
     fn as_mut(&mut self) -> (r: &mut [u8])
         ensures (*r)@ == old(self).bytes_view(), final(self).bytes_view() == (*final(r))@;
 }
@@ -230,6 +233,8 @@ pub trait Group: Copy + PartialEq {
     proof fn ax_eser_deser(a: Self::Element) ensures a != Self::e_id() ==> Self::spec_edeser(Self::spec_eser(a)) == Some(a);
     proof fn ax_edeser_canonical(b: Seq<u8>) ensures Self::spec_edeser(b) is Some ==> Self::spec_edeser(b)->Some_0 != Self::e_id() && Self::spec_eser(Self::spec_edeser(b)->Some_0) == b;
     proof fn ax_eserialization_len(x: Self::Serialization) ensures x.bytes_view().len() == Self::spec_ne();
+    // element encodings are not empty (all suites: NE >= 32); `deserialize_whole` cuts its input into NE-byte chunks (chunks_exact panics on 0)
+    proof fn ax_ne_positive() ensures Self::spec_ne() > 0;
 }
 
 pub type Element<C> = <<C as Ciphersuite>::Group as Group>::Element;
